@@ -33,12 +33,15 @@ CTX = [
     ("Vec<tuple-after-two-foreign>", lambda x: ("vec", ("tuple", [rg.N("AaaForeignPath"), rg.N("Aab"), x, rg.N("ZzzForeignId")]))),
 ]
 # type names that begin like the containers / primitives the tool recognises by string prefix, and other awkward shapes
-NAME_POOL = ["K", "V", "E", "Größe", "データ", "Table", "TableSchema", "Schema", "JsonSchema", "QueryParams", "QueryParamsSchema", "Options", "OptionalFeature", "Option_", "Vec3", "Vector", "VecDeque2", "HashSetStats", "HashMapper", "BTreeMapView", "BTreeSetLike",
+NAME_POOL = ["Value", "JsonValue", "Api_Response", "K", "V", "E", "Größe", "データ", "Table", "TableSchema", "Schema", "JsonSchema", "QueryParams", "QueryParamsSchema", "Options", "OptionalFeature", "Option_", "Vec3", "Vector", "VecDeque2", "HashSetStats", "HashMapper", "BTreeMapView", "BTreeSetLike",
              "Results", "ResultSet", "Stringy", "StringList", "Str", "Boolean", "Bool", "I32Wrapper", "U8", "F64x", "Usize", "Channel2", "ChannelMsg",
              "Record", "Tuple", "Unit", "Boxed", "ArcItem", "T", "A", "Z9", "Item_V2", "HTTPResponse", "State2", "Window2", "AppHandle2", "Event", "Error",
              "Self_", "Some", "None_", "Ok", "Err", "Node", "User", "Config"]
 ROOT_KINDS = ["param", "return", "return-result-ok", "channel", "channel-only", "event-typed-param", "event-struct-expr", "event-let", "event-shadowed-let"]
 HDR = rg.PRELUDE + "use tauri::{AppHandle, Emitter, ipc::Channel};\n\n"
+
+
+assert len(set(NAME_POOL)) == len(NAME_POOL), "NAME_POOL must not repeat a name: two types of one name in a project are another experiment"
 
 
 def gen_case(rnd, idx, forced_ctx=None, forced_root=None, n=None):
@@ -132,7 +135,9 @@ def gen_case(rnd, idx, forced_ctx=None, forced_root=None, n=None):
                               "all-skipped": "pub struct %s {\n    #[serde(skip)]\n    pub cache: i32,\n    #[serde(skip)]\n    pub other: String,\n}\n\n"}[form] % names[i]
         if inline_mods and i % 2 == 1:
             # the definition sits in an inline module of its file (pub mod models { .. }): still defined by that file
-            src = "pub mod m_%d_%d {\n    use super::*;\n%s}\n\n" % (idx, i, "".join("    " + ln + "\n" if ln else "\n" for ln in src.rstrip("\n").split("\n")))
+            gate = ["", "", "#[cfg(not(test))]\n", "#[cfg(any(test, feature = \"fixtures\"))]\n", "#[cfg(feature = \"models\")]\n", "#[cfg(all(not(test), debug_assertions))]\n",
+                    "#[allow(dead_code)]\n", "#[cfg_attr(test, allow(unused))]\n"][(idx + i) % 8]
+            src = gate + "pub mod m_%d_%d {\n    use super::*;\n%s}\n\n" % (idx, i, "".join("    " + ln + "\n" if ln else "\n" for ln in src.rstrip("\n").split("\n")))
             inline_defined.add(names[i])
         body.setdefault(file_of[i], []).append(src)
     cmds = []
